@@ -9,10 +9,11 @@ V = Path(__file__).resolve().parent.parent
 base = json.loads((V / "manifest/_base.json").read_text())
 na_reasons = json.loads((V / "manifest/_not_applicable.json").read_text()) if (V / "manifest/_not_applicable.json").exists() else {}
 props = [json.loads(l)["id"] for l in (V / "properties.jsonl").read_text().splitlines() if l.strip()]
+enabled = set(json.loads((V / "manifest/_enabled.json").read_text()))   # reviewed and working checks only
 checks, engines = [], {}
 for pid in props:
     f = V / f"manifest/{pid}.json"
-    if not f.exists():
+    if not f.exists() or pid not in enabled:
         continue
     e = json.loads(f.read_text())
     e.setdefault("property_id", pid)
